@@ -5,13 +5,13 @@ import (
 	"bytes"
 	"compress/flate"
 	"compress/zlib"
-	"io"
 	"encoding/hex"
 	"fmt"
 	"go/constant"
 	"go/token"
 	"go/types"
 	stdhtml "html"
+	"io"
 	"math"
 	"path"
 	"regexp"
